@@ -142,6 +142,12 @@ func genLock(seed uint64, tier, variant string) any {
 	if r.IntN(4) == 0 {
 		p.Names = []string{"a", "b"}
 	}
+	if seed%2 == 1 {
+		// lock names may contain the separator of the key layout (<prefix>:<index>:<name>)
+		for i, n := range p.Names {
+			p.Names[i] = n + ":order:42"
+		}
+	}
 	ntasks := p.Lockers + r.IntN(3)
 	if ntasks < 2 {
 		ntasks = 2
